@@ -1,5 +1,6 @@
 mod util;
 mod rawdb_suite;
+mod vec_suite;
 
 use util::*;
 
@@ -23,11 +24,17 @@ fn main() {
             let rep = rawdb_suite::run(arg(&args, "--depth", 3usize), arg(&args, "--random-secs", 5u64), arg(&args, "--random-depth", 12usize), seed, thorough, threads);
             println!("{}", rep.to_json());
         }
+        "vec" => {
+            let fmt: String = arg(&args, "--format", "bytes".to_string());
+            let rep = vec_suite::run(&fmt, arg(&args, "--depth", 3usize), arg(&args, "--random-secs", 5u64), arg(&args, "--random-depth", 12usize), seed, thorough, threads);
+            println!("{}", rep.to_json());
+        }
         "replay" => {
             let suite = args[2].as_str();
             let hist: Vec<String> = args[3].split(';').map(|s| s.trim().to_string()).filter(|s| !s.is_empty()).collect();
             let r = match suite {
                 "rawdb" => rawdb_suite::replay(std::path::Path::new("."), &hist),
+                s if s.starts_with("vec:") => vec_suite::replay(&s[4..], &hist),
                 _ => { eprintln!("unknown suite"); std::process::exit(2); }
             };
             match r {
